@@ -3,6 +3,7 @@ import Rtcm.Model.Bits
 import Rtcm.Model.TokText
 import Rtcm.Gen.DfTable
 import Rtcm.Model.Message
+import Rtcm.Model.Serde
 import Rtcm.Gen.Messages
 /-!
 Line-protocol driver for the correspondence check: one operation per input line, one canonical
@@ -147,10 +148,39 @@ def handleCfg (cfg : Cfg) (toks : List String) : String :=
   | ["DEC", h] => match bytesOfHex h with | some d => opDec cfg d | none => "BAD-OP"
   | "ENC" :: ws => opEnc cfg ws
   | "BUILDSEQ" :: ws => opBuildSeq cfg ws
+  | ["SIG", g, b, a] =>
+    match Gen.sigTables.find? (·.1 == g), b.toNat?, a.toNat? with
+    | some (_, t), some b, some a =>
+      if b > 255 ∨ a > 0x10FFFF ∨ (0xD800 ≤ a ∧ a ≤ 0xDFFF) then "BAD-OP"
+      else if Sig.isValid t b a then "valid" else "invalid"
+    | _, _, _ => "BAD-OP"
+  | ["SIGCMP", g, b1, a1, b2, a2] =>
+    match Gen.sigTables.find? (·.1 == g), b1.toNat?, a1.toNat?, b2.toNat?, a2.toNat? with
+    | some (_, t), some b1, some a1, some b2, some a2 =>
+      match Sig.cmp t (b1, a1) (b2, a2) with
+      | .lt => "Less" | .eq => "Equal" | .gt => "Greater"
+    | _, _, _, _, _ => "BAD-OP"
+  | "SERDESTR" :: kind :: n :: cps =>
+    match n.toNat?, parseNatsSp cps with
+    | some n, some cs =>
+      if kind == "88591" then
+        let v := Text.df88591From n cs
+        let w := Serde.de88591 n (Serde.ser88591 v)
+        hexOrDash (bytesNat w) ++ (if w == v then " EQ" else " NE")
+      else
+        let v := Text.arrayStringFrom n cs
+        -- the characters the ArrayString holds: the longest fitting prefix of `cs`
+        let held := cs.take ((List.range (cs.length + 1)).filter
+          (fun k => ((cs.take k).flatMap Text.utf8Enc) == v)).head!
+        let w := Serde.deAstr n (Serde.serAstr held)
+        hexOrDash (bytesNat w) ++ (if w == v then " EQ" else " NE")
+    | _, _ => "BAD-OP"
   | "STR88591" :: n :: cps =>
     match n.toNat?, parseNatsSp cps with
-    | some n, some cs => hexOrDash (bytesNat (Text.df88591From n cs)) ++ " " ++
-        " ".intercalate ((Text.df88591Chars (Text.df88591From n cs)).map toString)
+    | some n, some cs =>
+      let v := Text.df88591From n cs
+      if v.isEmpty then "-" else hexOrDash (bytesNat v) ++ " " ++
+        " ".intercalate ((Text.df88591Chars v).map toString)
     | _, _ => "BAD-OP"
   | "ASTR" :: n :: cps =>
     match n.toNat?, parseNatsSp cps with
